@@ -249,6 +249,9 @@ class C06(Property):
         run_controlled(main, seed, timeout=max(30.0, ctx.time_left() + 900))
         got = ctx.lean("Drivers/C06.lean", self._lines)
         for g, (real, case) in zip(got, self._expect):
+            if case.get("stage") == "provenance":      # the order inside a provenance set is not observable in the database
+                g = _canon_prov(g)
+                real = _canon_prov(real)
             if g != real:
                 ctx.disagree(f"model vs {case['op']}", f"code {real!r}, Lean model {g!r}", case)
 
@@ -404,8 +407,20 @@ class C06(Property):
             ctx.fail("loopout:hang", "the step took its termination token and is blocked on its input port for ever", case)
         out = list(p_out.token_list)
         exp = (self._render(out, ids, hung), case)
+        # provenance recorded in the database for every output: the body outputs collected for the instance
+        by_pid = {t.persistent_id: f"{t.tag}:{ids[id(t)]}" for t in toks if id(t) in ids}
+        provs = []
+        for t in out:
+            if isinstance(t, TerminationToken):
+                continue
+            deps = [r["dependee"] for r in await context.database.get_dependees(t.persistent_id)]
+            extra = [d for d in deps if d not in by_pid]
+            provs.append(f"{t.tag if t.tag != '' else '~'}<-[" + ",".join(sorted(by_pid[d] for d in deps if d in by_pid)) + "]" + (f"+{len(extra)}" if extra else ""))
+        pexp = (";".join(provs) or "-", dict(case, stage="provenance"))
         self._lines.append(f"loopout {case['method']} " + " ".join(words))   # appended together (never misaligned by a crash)
         self._expect.append(exp)
+        self._lines.append(f"loopoutprov {case['method']} " + " ".join(words))
+        self._expect.append(pexp)
         if not case.get("partial"):
             self._monitor(ctx, case, out)
         nmax = max([len(i["vals"]) for i in case["instances"]], default=0)
@@ -860,8 +875,21 @@ class C06(Property):
         got = ctx.lean("Drivers/C06.lean", self._lines)
         for ln, g, (real, c) in zip(self._lines, got, self._expect):
             print(f"{ln[:500]}\n   real : {real[:600]}\n   model: {g[:600]}")
+            if c.get("stage") == "provenance":
+                g, real = _canon_prov(g), _canon_prov(real)
             if g != real:
                 ctx.disagree("model vs code", f"code {real!r}, model {g!r}", c)
+
+
+def _canon_prov(line: str) -> str:
+    if line == "-":
+        return line
+    parts = []
+    for part in line.split(";"):
+        head, body = part.split("<-[", 1)
+        body, tail = body.split("]", 1)
+        parts.append(head + "<-[" + ",".join(sorted(x for x in body.split(",") if x)) + "]" + tail)
+    return ";".join(parts)
 
 
 def _strip(u):
